@@ -132,7 +132,9 @@ func (bv *BitVector) Equals() bool {
 		return false
 	}
 
-	l := len(bv.b)
+	// only the bytes that hold the first bv.len bits count: the backing
+	// slice may be longer than needed
+	l := (bv.len + 7) / 8
 
 	length := bv.len % 8
 	for i := 0; i < l; i++ {
